@@ -2078,3 +2078,470 @@ mod c12 {
         kani::cover!(true, "reached");
     }
 }
+
+mod c07 {
+    use super::*;
+
+    pub(super) fn any_mode() -> SessionMode {
+        let k: u8 = kani::any();
+        kani::assume(k < 4);
+        match k {
+            0 => SessionMode::PlainText,
+            1 => SessionMode::Pase { fab_idx: kani::any() },
+            2 => SessionMode::Case { fab_idx: kani::any(), cat_ids: kani::any() },
+            _ => SessionMode::Group { fab_idx: kani::any(), group_id: kani::any() },
+        }
+    }
+
+    /// An arbitrary session built from its fields. Every scalar is arbitrary, so are the four key
+    /// buffers; the peer address is a fixed one and the exchange table is empty (neither is looked at
+    /// by the functions under contract; the session is moved or dropped as a whole).
+    pub(super) fn any_session() -> Session {
+        let mut dec_key = CanonAeadKey::new();
+        *dec_key.access_mut() = kani::any();
+        let mut enc_key = CanonAeadKey::new();
+        *enc_key.access_mut() = kani::any();
+        let mut shared_secret = CanonPkcSharedSecret::new();
+        *shared_secret.access_mut() = kani::any();
+        let mut att_challenge = AttChallenge::new();
+        *att_challenge.access_mut() = kani::any();
+        Session {
+            id: kani::any(),
+            peer_addr: Address::new(),
+            local_nodeid: kani::any(),
+            peer_nodeid: kani::any(),
+            dec_key,
+            enc_key,
+            shared_secret,
+            att_challenge,
+            local_sess_id: kani::any(),
+            peer_sess_id: kani::any(),
+            msg_ctr: kani::any(),
+            rx_ctr_state: RxCtrState::new(kani::any()),
+            mode: any_mode(),
+            exchanges: Vec::new(),
+            last_use: Instant::from_ticks(kani::any()),
+            peer_active_interval_ms: kani::any(),
+            peer_idle_interval_ms: kani::any(),
+            peer_active_threshold_ms: kani::any(),
+            expired: kani::any(),
+            reserved: kani::any(),
+        }
+    }
+
+    /// Arbitrary table with exactly `n` sessions. Representation invariant: the internal ids are
+    /// pairwise distinct (`Sessions::add` hands out `next_sess_unique_id`; its wrap-around is D10/C15).
+    pub(super) fn any_sessions(n: usize) -> Sessions {
+        let mut t = Sessions::new();
+        t.next_sess_unique_id = kani::any();
+        t.next_sess_id = kani::any();
+        t.next_exch_id = kani::any();
+        for _ in 0..n {
+            let s = any_session();
+            for o in t.sessions.iter() {
+                kani::assume(o.id != s.id);
+            }
+            let _ = t.sessions.push(s);
+        }
+        t
+    }
+
+    // ---- the abstract session table the fail-safe harnesses (kani/failsafe.rs) are verified against ----
+    //
+    // A table of real `Session` values inside `FailSafe::expire` exhausts 12 GB (measured): callers
+    // are verified against the contracts of `remove_pase` / `remove_for_fabric` over `GHOST` = a list
+    // of (id, kind, fabric index, expired) of any length up to `GSN`; the `Sessions`
+    // value they pass around is empty. `kani::any::<Sessions>()` makes `GHOST` arbitrary,
+    // `Sessions::get` (stubbed by `ghost_get`) is the harnesses' window onto it.
+
+    /// Length bound of the abstract table (the real capacity is MAX_SESSIONS = 32; with 32 the
+    /// `expire` harnesses need 10-50 min of CBMC each, measured).
+    pub(crate) const GSN: usize = 4;
+
+    pub(crate) struct Ghost {
+        pub(crate) len: usize,
+        pub(crate) id: [u32; GSN],
+        /// 0 plain text, 1 PASE, 2 CASE, 3 group
+        pub(crate) kind: [u8; GSN],
+        pub(crate) fab: [u8; GSN],
+        pub(crate) expired: [bool; GSN],
+    }
+
+    pub(crate) static mut GHOST: Ghost =
+        Ghost { len: 0, id: [0; GSN], kind: [0; GSN], fab: [0; GSN], expired: [false; GSN] };
+
+    pub(crate) fn ghost() -> &'static mut Ghost {
+        unsafe { &mut *core::ptr::addr_of_mut!(GHOST) }
+    }
+
+    /// Any table: ids pairwise distinct; a CASE or group session names a real fabric (non-zero index,
+    /// by type), a plain-text session none.
+    impl kani::Arbitrary for Sessions {
+        fn any() -> Self {
+            let g = ghost();
+            let n: usize = kani::any();
+            kani::assume(n <= GSN);
+            g.len = n;
+            g.id = kani::any();
+            g.kind = kani::any();
+            g.fab = kani::any();
+            g.expired = kani::any();
+            for i in 0..GSN {
+                if i < n {
+                    kani::assume(g.kind[i] < 4);
+                    kani::assume(g.kind[i] != 0 || g.fab[i] == 0);
+                    kani::assume(g.kind[i] < 2 || g.fab[i] != 0);
+                    for j in 0..GSN {
+                        kani::assume(j >= i || g.id[j] != g.id[i]);
+                    }
+                }
+            }
+            Sessions::new()
+        }
+    }
+
+    fn ghost_mode(kind: u8, fab: u8) -> SessionMode {
+        match kind {
+            0 => SessionMode::PlainText,
+            1 => SessionMode::Pase { fab_idx: fab },
+            2 => SessionMode::Case { fab_idx: unwrap!(NonZeroU8::new(fab)), cat_ids: [0; 3] },
+            _ => SessionMode::Group { fab_idx: unwrap!(NonZeroU8::new(fab)), group_id: 0 },
+        }
+    }
+
+    /// Window for the harnesses (stub of `Sessions::get`): a `Session` of which only `id`, `mode` and
+    /// `expired` are initialised - exactly what `id()`, `get_session_mode()`, `get_local_fabric_idx()`
+    /// and `is_expired()` read.
+    pub(crate) fn ghost_get(_this: &mut Sessions, id: u32) -> Option<&mut Session> {
+        let g = ghost();
+        let i = (0..GSN).find(|&i| i < g.len && g.id[i] == id)?;
+        let slot = Box::leak(Box::new(core::mem::MaybeUninit::<Session>::uninit()));
+        let p = slot.as_mut_ptr();
+        unsafe {
+            core::ptr::addr_of_mut!((*p).id).write(id);
+            core::ptr::addr_of_mut!((*p).mode).write(ghost_mode(g.kind[i], g.fab[i]));
+            core::ptr::addr_of_mut!((*p).expired).write(g.expired[i]);
+            Some(&mut *p)
+        }
+    }
+
+    fn ghost_filter(keep_entry: impl Fn(u32, u8, u8) -> bool) {
+        let g = ghost();
+        let mut w = 0;
+        for r in 0..GSN {
+            if r < g.len && keep_entry(g.id[r], g.kind[r], g.fab[r]) {
+                g.id[w] = g.id[r];
+                g.kind[w] = g.kind[r];
+                g.fab[w] = g.fab[r];
+                g.expired[w] = g.expired[r];
+                w += 1;
+            }
+        }
+        g.len = w;
+    }
+
+    /// Contract of `Sessions::remove_pase` (clauses proved against the real body by
+    /// `c08_sessions_remove_pase_*`): every PASE session other than `keep` is dropped, a PASE `keep`
+    /// is marked expired, nothing else changes.
+    pub(crate) fn ghost_remove_pase(_this: &mut Sessions, keep: Option<u32>) {
+        ghost_filter(|id, kind, _| !(kind == 1 && Some(id) != keep));
+        let g = ghost();
+        for i in 0..GSN {
+            if i < g.len && Some(g.id[i]) == keep && g.kind[i] == 1 {
+                g.expired[i] = true;
+            }
+        }
+    }
+
+    /// Contract of `Sessions::remove_for_fabric` (clauses proved against the real body by
+    /// `c07_sessions_remove_for_fabric_*`): every session of the fabric other than `keep` is dropped,
+    /// `keep` (whatever its fabric) is marked expired, nothing else changes.
+    pub(crate) fn ghost_remove_for_fabric(_this: &mut Sessions, fabric_idx: NonZeroU8, keep: Option<u32>) {
+        ghost_filter(|id, _, fab| !(fab == fabric_idx.get() && Some(id) != keep));
+        let g = ghost();
+        for i in 0..GSN {
+            if i < g.len && Some(g.id[i]) == keep {
+                g.expired[i] = true;
+            }
+        }
+    }
+
+    /// Everything a session consists of, except the (fixed) address and the (empty) exchange table.
+    #[derive(Copy, Clone, PartialEq, Eq)]
+    pub(super) struct Snap {
+        pub(super) id: u32,
+        pub(super) fab: u8,
+        pub(super) kind: u8,
+        pub(super) aux: u16,
+        pub(super) cats: NocCatIds,
+        pub(super) expired: bool,
+        pub(super) reserved: bool,
+        pub(super) local_nodeid: u64,
+        pub(super) peer_nodeid: Option<u64>,
+        pub(super) local_sess_id: u16,
+        pub(super) peer_sess_id: u16,
+        pub(super) msg_ctr: u32,
+        pub(super) last_use: u64,
+        pub(super) intervals: (u32, u32, u16),
+        pub(super) dec_key: [u8; 16],
+        pub(super) enc_key: [u8; 16],
+        pub(super) att: [u8; 16],
+        pub(super) secret0: u8,
+        pub(super) secret_last: u8,
+    }
+
+    pub(super) const EMPTY: Snap = Snap {
+        id: 0,
+        fab: 0,
+        kind: 0,
+        aux: 0,
+        cats: [0; 3],
+        expired: false,
+        reserved: false,
+        local_nodeid: 0,
+        peer_nodeid: None,
+        local_sess_id: 0,
+        peer_sess_id: 0,
+        msg_ctr: 0,
+        last_use: 0,
+        intervals: (0, 0, 0),
+        dec_key: [0; 16],
+        enc_key: [0; 16],
+        att: [0; 16],
+        secret0: 0,
+        secret_last: 0,
+    };
+
+    pub(super) fn snap(s: &Session) -> Snap {
+        let (kind, fab, aux, cats) = match &s.mode {
+            SessionMode::PlainText => (0u8, 0u8, 0u16, [0u32; 3]),
+            SessionMode::Pase { fab_idx } => (1, *fab_idx, 0, [0; 3]),
+            SessionMode::Case { fab_idx, cat_ids } => (2, fab_idx.get(), 0, *cat_ids),
+            SessionMode::Group { fab_idx, group_id } => (3, fab_idx.get(), *group_id, [0; 3]),
+        };
+        let sec = s.shared_secret.access();
+        Snap {
+            id: s.id,
+            fab,
+            kind,
+            aux,
+            cats,
+            expired: s.expired,
+            reserved: s.reserved,
+            local_nodeid: s.local_nodeid,
+            peer_nodeid: s.peer_nodeid,
+            local_sess_id: s.local_sess_id,
+            peer_sess_id: s.peer_sess_id,
+            msg_ctr: s.msg_ctr,
+            last_use: s.last_use.as_ticks(),
+            intervals: (s.peer_active_interval_ms, s.peer_idle_interval_ms, s.peer_active_threshold_ms),
+            dec_key: *s.dec_key.access(),
+            enc_key: *s.enc_key.access(),
+            att: *s.att_challenge.access(),
+            secret0: sec[0],
+            secret_last: sec[sec.len() - 1],
+        }
+    }
+
+    pub(super) fn snapshot<const N: usize>(t: &Sessions) -> ([Snap; N], usize) {
+        let mut a = [EMPTY; N];
+        for (i, s) in t.sessions.iter().enumerate() {
+            if i < N {
+                a[i] = snap(s);
+            }
+        }
+        (a, t.sessions.len())
+    }
+
+    // TIER: quick
+    // KIND: bounded (abstract table of at most 4 sessions)
+    /// The abstract `remove_for_fabric` / `remove_pase` have the clauses proved for the real bodies.
+    #[kani::proof]
+    #[kani::unwind(14)]
+    fn c07_sessions_ghost_matches_contract() {
+        let mut t: Sessions = kani::any();
+        let f: NonZeroU8 = kani::any();
+        let keep: Option<u32> = kani::any();
+        let id: u32 = kani::any();
+        let view = |t: &mut Sessions| ghost_get(t, id).map(|s| (s.get_session_mode().clone(), s.expired));
+        let before = view(&mut t);
+        let pase: bool = kani::any();
+        if pase {
+            ghost_remove_pase(&mut t, keep);
+        } else {
+            ghost_remove_for_fabric(&mut t, f, keep);
+        }
+        let after = view(&mut t);
+        let is_kept = Some(id) == keep;
+        match before.clone() {
+            None => kani::assert(after.is_none(), "C07.sessions.ghost.no_new_session"),
+            Some((mode, expired)) => {
+                let targeted = if pase { matches!(mode, SessionMode::Pase { .. }) } else { mode.fab_idx() == f.get() };
+                if targeted && !is_kept {
+                    kani::assert(after.is_none(), "C07.sessions.ghost.targeted_sessions_dropped");
+                } else {
+                    let expire = is_kept && (targeted || !pase);
+                    kani::assert(after == Some((mode, expired || expire)), "C07.sessions.ghost.others_unchanged_kept_expired");
+                }
+            }
+        }
+        kani::cover!(before.is_some() && after.is_none(), "dropped");
+        kani::cover!(matches!((&before, &after), (Some((_, false)), Some((_, true)))), "kept, expired");
+        kani::cover!(ghost().len == GSN, "full table left untouched");
+    }
+
+    /// Step contract of `remove_for_fabric(f, keep)` for a table of `n` sessions (`n <= N`).
+    ///
+    /// From the property statement: once fabric `f` is gone no session of `f` can be used any more -
+    /// the only one that may stay is the session the answer still has to go out on, and it is expired
+    /// (an expired session accepts no new exchange); sessions of other fabrics are unaffected.
+    #[allow(dead_code)]
+    fn check_remove_for_fabric<const N: usize>(n: usize) {
+        let mut t = any_sessions(n);
+        let f: NonZeroU8 = kani::any();
+        let keep: Option<u32> = kani::any();
+        let (before, blen) = snapshot::<N>(&t);
+        let counters = (t.next_sess_unique_id, t.next_sess_id, t.next_exch_id);
+
+        t.remove_for_fabric(f, keep);
+
+        let (after, alen) = snapshot::<N>(&t);
+
+        // 1. safety: what is left on fabric `f` is the kept session only, and it is expired
+        let k: usize = kani::any();
+        kani::assume(k < alen);
+        if after[k].fab == f.get() {
+            kani::assert(Some(after[k].id) == keep, "C07.sessions.remove_for_fabric.only_kept_session_stays");
+            kani::assert(after[k].expired, "C07.sessions.remove_for_fabric.kept_session_is_expired");
+        }
+        // nothing is invented: every session left was there before (same id)
+        kani::assert(
+            (0..blen).any(|i| before[i].id == after[k].id),
+            "C07.sessions.remove_for_fabric.no_new_session",
+        );
+
+        // 2. frame: a session that is not on fabric `f` is still there, with every field as before;
+        //    the kept session only has `expired` raised.
+        let j: usize = kani::any();
+        kani::assume(j < blen);
+        let b = before[j];
+        let pos = (0..alen).find(|&i| after[i].id == b.id);
+        let is_kept = Some(b.id) == keep;
+        if b.fab != f.get() || is_kept {
+            kani::assert(pos.is_some(), "C07.sessions.remove_for_fabric.other_fabrics_sessions_stay");
+            if let Some(p) = pos {
+                let mut expect = b;
+                if is_kept {
+                    expect.expired = true;
+                }
+                kani::assert(after[p] == expect, "C07.sessions.remove_for_fabric.other_fabrics_sessions_unchanged");
+            }
+        } else {
+            kani::assert(pos.is_none(), "C07.sessions.remove_for_fabric.sessions_of_fabric_dropped");
+        }
+        // 3. the allocation counters are not touched
+        kani::assert(
+            counters == (t.next_sess_unique_id, t.next_sess_id, t.next_exch_id),
+            "C07.sessions.remove_for_fabric.counters_untouched",
+        );
+        // the table did not grow
+        kani::assert(alen <= blen, "C07.sessions.remove_for_fabric.no_growth");
+
+        kani::cover!(alen + 2 <= blen, "two or more sessions dropped");
+        kani::cover!(alen == blen && blen > 0, "nothing dropped");
+        kani::cover!((0..alen).any(|i| after[i].fab == f.get()), "kept session of the fabric stays, expired");
+        kani::cover!(b.fab != f.get() && is_kept, "kept id names a session of another fabric (callers never do this)");
+        kani::cover!(b.kind == 2 && b.fab == f.get() && !is_kept, "CASE session dropped");
+        kani::cover!(b.kind == 3 && b.fab == f.get(), "group session dropped");
+    }
+
+    // DID NOT CLOSE (12 GB exhausted even for 2 sessions: `swap_remove` at a symbolic index moves whole
+    // `Session` values inside the 32-slot table) - kept for reference, not compiled.
+    #[cfg(any())]
+    #[kani::proof]
+    #[kani::unwind(4)]
+    fn c07_sessions_remove_for_fabric_2() {
+        let n: usize = kani::any();
+        kani::assume(n <= 2);
+        check_remove_for_fabric::<2>(n);
+    }
+
+    // DID NOT CLOSE (12 GB exhausted even for 2 sessions: `swap_remove` at a symbolic index moves whole
+    // `Session` values inside the 32-slot table) - kept for reference, not compiled.
+    #[cfg(any())]
+    #[kani::proof]
+    #[kani::unwind(6)]
+    fn c07_sessions_remove_for_fabric_4() {
+        let n: usize = kani::any();
+        kani::assume(n <= 4);
+        check_remove_for_fabric::<4>(n);
+    }
+}
+
+mod c08 {
+    use super::c07::{any_sessions, snapshot};
+
+    /// Step contract of `remove_pase(keep)` (used by the fail-safe expiry and CommissioningComplete):
+    /// afterwards the only PASE session possibly left is `keep`, expired; every other session is
+    /// untouched (a `keep` naming a non-PASE session is left alone).
+    #[allow(dead_code)]
+    fn check_remove_pase<const N: usize>(n: usize) {
+        let mut t = any_sessions(n);
+        let keep: Option<u32> = kani::any();
+        let (before, blen) = snapshot::<N>(&t);
+
+        t.remove_pase(keep);
+
+        let (after, alen) = snapshot::<N>(&t);
+        let k: usize = kani::any();
+        kani::assume(k < alen);
+        if after[k].kind == 1 {
+            kani::assert(Some(after[k].id) == keep, "C08.sessions.remove_pase.only_kept_pase_stays");
+            kani::assert(after[k].expired, "C08.sessions.remove_pase.kept_pase_is_expired");
+        }
+        kani::assert((0..blen).any(|i| before[i].id == after[k].id), "C08.sessions.remove_pase.no_new_session");
+
+        let j: usize = kani::any();
+        kani::assume(j < blen);
+        let b = before[j];
+        let pos = (0..alen).find(|&i| after[i].id == b.id);
+        let is_kept = Some(b.id) == keep;
+        if b.kind != 1 {
+            kani::assert(pos.is_some(), "C08.sessions.remove_pase.non_pase_sessions_stay");
+            if let Some(p) = pos {
+                kani::assert(after[p] == b, "C08.sessions.remove_pase.non_pase_sessions_unchanged");
+            }
+        } else if is_kept {
+            let mut expect = b;
+            expect.expired = true;
+            kani::assert(matches!(pos, Some(p) if after[p] == expect), "C08.sessions.remove_pase.kept_pase_only_expired");
+        } else {
+            kani::assert(pos.is_none(), "C08.sessions.remove_pase.pase_sessions_dropped");
+        }
+        kani::cover!(alen + 2 <= blen, "two PASE sessions dropped");
+        kani::cover!(b.kind == 1 && is_kept, "kept PASE session");
+        kani::cover!(b.kind == 2 && is_kept, "kept id names a CASE session");
+    }
+
+    // DID NOT CLOSE (12 GB exhausted even for 2 sessions: `swap_remove` at a symbolic index moves whole
+    // `Session` values inside the 32-slot table) - kept for reference, not compiled.
+    #[cfg(any())]
+    #[kani::proof]
+    #[kani::unwind(4)]
+    fn c08_sessions_remove_pase_2() {
+        let n: usize = kani::any();
+        kani::assume(n <= 2);
+        check_remove_pase::<2>(n);
+    }
+
+    // DID NOT CLOSE (12 GB exhausted even for 2 sessions: `swap_remove` at a symbolic index moves whole
+    // `Session` values inside the 32-slot table) - kept for reference, not compiled.
+    #[cfg(any())]
+    #[kani::proof]
+    #[kani::unwind(6)]
+    fn c08_sessions_remove_pase_4() {
+        let n: usize = kani::any();
+        kani::assume(n <= 4);
+        check_remove_pase::<4>(n);
+    }
+}
